@@ -459,7 +459,7 @@ def spaces(tier, seed):
                         yield (p, order, "scattered", ex, True)
 
     h2 = 4 if tier == "quick" else 5
-    h3 = 3 if tier == "quick" else 4
+    h3 = 3  # triples over LT(3) in both tiers (LT(4) gave 76^3 = 439k triples: 25 minutes for little)
 
     def gen_hist():
         pool2 = [(f, p) for n in range(2, h2 + 1) for p in (S.labelled_trees(n) if n < h2 else S.sorted_trees(n)) for f in FORMS]
